@@ -139,7 +139,8 @@ CHECKS = {
     "C03": dict(level="exploration", parts=[
         dict(prop="C03", harness="codec_pbt", quick=dict(count=40000, workers=8), thorough=dict(count=3300000, workers=16),
              essential=_CODEC_ESS_KINDS + ["label=255", "label=256", "label=300", "entries=8", "entries=9", "entries=12", "double:nan",
-                                           "grid:1-marker", "grid:unsorted", "grid:>32768", "extra-data", "encode-rejected", "payload=chunk-multiple", "payload=chunk-multiple-1", "payload=chunk-multiple+1"]),
+                                           "grid:1-marker", "grid:unsorted", "grid:>32768", "extra-data", "encode-rejected", "payload=chunk-multiple", "payload=chunk-multiple-1", "payload=chunk-multiple+1",
+                                           "after-rejected-decode"]),
         dict(prop="C03.reg", harness="codec_pbt", quick=dict(count=0, workers=1), thorough=dict(count=0, workers=1)),  # regression scenarios only
     ]),
     "C04": dict(level="exploration", parts=[
@@ -320,7 +321,7 @@ RULES = {
            "sentinel, denormal, NaN payloads, +-inf, arbitrary bits), integer edges, labels of 0/1/short/254/255/256/300 arbitrary bytes, "
            "0..12 cue/loop entries, 1.x grids empty/2/many/1-marker/unsorted/>32768/extreme indices, waveforms 0..60/1024/large, extra_data "
            "0..64 bytes or padding the payload to a 16384-byte zlib chunk boundary -1/0/+1. Oracle: encode throws std::exception, or decode(encode(v)) is bit-identical to v (own renderer, NaN by bits) up to "
-           "the one permitted loss (1.x cue/loop with offset -1 reads back absent). 1.x zero-means-none fields (sample rate/count, loudness, "
+           "the one permitted loss (1.x cue/loop with offset -1 reads back absent); one time in four a damaged copy of the blob (cut short / byte altered / wrong prefix) is decoded first on the same thread and its verdict ignored. 1.x zero-means-none fields (sample rate/count, loudness, "
            "key 0 in the trackData blob) are generated absent instead of present-zero. Non-trivial = value has >=1 entry or non-empty "
            "extra_data and was accepted by the encoder; distinct = distinct canonical renderings.",
     "C04": "pbt part: a generated 2.x value (0..20 entries, arbitrary flag bytes 0..255 for is_start_set/is_end_set/is_beatgrid_set and the "
